@@ -140,12 +140,18 @@ def _dom(ctx, lib):
 
 def run(ctx):
     lib = vlib.build_lib("asan")
-    with cf.ThreadPoolExecutor(2) as ex:
-        fa = ex.submit(_xmltext, ctx, lib)
-        time.sleep(1.5)
-        fb = ex.submit(_dom, ctx, lib)
-        fa.result()
-        fb.result()
+    if ctx.quick:
+        with cf.ThreadPoolExecutor(2) as ex:
+            fa = ex.submit(_xmltext, ctx, lib)
+            time.sleep(1.5)
+            fb = ex.submit(_dom, ctx, lib)
+            fa.result()
+            fb.result()
+    else:
+        # thorough: one after the other (the XmlTextSM model alone needs a 10 GB heap; side by side with the three DOM lanes the
+        # check was killed under a 16 GB memory limit)
+        _xmltext(ctx, lib)
+        _dom(ctx, lib)
     ctx.exhaustive = True
     ctx.rule = ("one case per transition of the XmlText generator (document / prefix / faulty document, with the expected "
                 "normalized tree for documents) and of the XmlDom state graph (history of public calls + every live node + "
